@@ -1,6 +1,7 @@
 package props
 
 import (
+	"io"
 	"bytes"
 	"crypto"
 	"encoding/hex"
@@ -78,6 +79,9 @@ type SigCase struct {
 	Expect   string `json:"expect"` // accept | reject | sigfault
 	Fault    string `json:"fault"`
 	Reps     int    `json:"reps"`
+	// Files, when set (untampered packages), is the payload of the signed package: after a
+	// successful check the handle must still deliver it, and a repeated check must agree
+	Files []TarFile `json:"files,omitempty"`
 }
 
 func checkSigCase(c SigCase, r *Recorder) error {
@@ -100,6 +104,43 @@ func checkSigCase(c SigCase, r *Recorder) error {
 		var verr error
 		if lerr == nil {
 			signer, verr = d.CheckDebsig(keyring, c.Role)
+			if verr == nil && c.Files != nil && c.Then == "" {
+				// verify, then unpack: the payload exposed after the check is the verified one
+				got := []TarFile{}
+				for {
+					h, err := d.Data.Next()
+					if err == io.EOF {
+						break
+					}
+					if err != nil {
+						d.Close()
+						return errf("after a successful CheckDebsig the data tar cannot be read: %v", err)
+					}
+					tf := TarFile{Name: h.Name, Type: tarTypeName(h.Typeflag), Link: h.Linkname}
+					if tf.Type == "reg" {
+						tf.Content, _ = io.ReadAll(d.Data)
+					}
+					got = append(got, tf)
+					if len(got) > len(c.Files)+5 {
+						break
+					}
+				}
+				if len(got) != len(c.Files) {
+					d.Close()
+					return errf("after a successful CheckDebsig the data tar lists %d entries, the signed package holds %d", len(got), len(c.Files))
+				}
+				for i, w := range c.Files {
+					if got[i].Name != w.Name || got[i].Type != w.Type || !bytes.Equal(got[i].Content, w.Content) {
+						d.Close()
+						return errf("after a successful CheckDebsig data tar entry %d is (%s, %d bytes), the signed package holds (%s, %d bytes)", i, got[i].Name, len(got[i].Content), w.Name, len(w.Content))
+					}
+				}
+				// and the same question asked again gets the same answer
+				if s2, err2 := d.CheckDebsig(keyring, c.Role); err2 != nil || fingerprint(s2) != fingerprint(signer) {
+					d.Close()
+					return errf("a second CheckDebsig on the same handle, same keyring, gives (%s, %v) after the first gave (%s, nil)", fingerprint(s2), err2, fingerprint(signer))
+				}
+			}
 			if c.Then != "" {
 				// a verdict must not outlive the call: asking the same handle again with a keyring
 				// that does not hold the signer has to fail, whatever happened before
@@ -212,7 +253,7 @@ func genSignedBase(t *rapid.T) SignedBase {
 
 var specC16 = Register(&Spec[SigCase]{
 	Prop: "C16", Name: "debsig",
-	Rule: "fault enumeration over generated debsig-signed packages (C14 models with stored/gzip members, role in {origin, maint, archive}, RSA signer from a per-process pool, detached binary signature over debian-binary|control|data in '_gpg<role>'): the untampered package with the signer in the keyring (accept); EVERY single-byte XOR 0x01 inside the three signed members (reject); a decoy control.*/data.* member with a different extension (a stored tar carrying 'Package: evil', or a copy) and a same-name duplicate with changed content inserted at EVERY member position, each loaded 64 times (reject); a role that is not present, an unrelated keyring, an empty keyring (reject); a second CheckDebsig on the same handle with an unrelated or empty keyring after a successful first one (the second must fail); EVERY single-byte XOR inside the signature member (must fail or still verify the unmodified content); the signature member replaced by its ASCII-armored form, alone (either outcome), with a foreign/empty keyring and with flipped bytes in each signed member (reject). Oracle: reject => Load or CheckDebsig fails on every repetition; always: if both succeed, the control data exposed equals the signed package's model and the signer is the signing entity. Non-trivial: every faulted case; distinct by (bytes, role, keyring).",
+	Rule: "fault enumeration over generated debsig-signed packages (C14 models with stored/gzip members, role in {origin, maint, archive}, RSA signer from a per-process pool, detached binary signature over debian-binary|control|data in '_gpg<role>'): the untampered package with the signer in the keyring (accept - and after the check the handle still delivers the signed payload, and a repeated check agrees); EVERY single-byte XOR 0x01 inside the three signed members (reject); a decoy control.*/data.* member with a different extension (a stored tar carrying 'Package: evil', or a copy) and a same-name duplicate with changed content inserted at EVERY member position, each loaded 64 times (reject); a role that is not present, an unrelated keyring, an empty keyring (reject); a second CheckDebsig on the same handle with an unrelated or empty keyring after a successful first one (the second must fail); EVERY single-byte XOR inside the signature member (must fail or still verify the unmodified content); the signature member replaced by its ASCII-armored form, alone (either outcome), with a foreign/empty keyring and with flipped bytes in each signed member (reject). Oracle: reject => Load or CheckDebsig fails on every repetition; always: if both succeed, the control data exposed equals the signed package's model and the signer is the signing entity. Non-trivial: every faulted case; distinct by (bytes, role, keyring).",
 	Check: checkSigCase,
 })
 
@@ -230,7 +271,9 @@ func enumerateSigFaults(b SignedBase, yield func(SigCase) bool) bool {
 		c.Raw, c.Expect, c.Fault, c.Reps = raw, expect, fault, reps
 		return c
 	}
-	if !yield(mk(raw, "accept", "none", 2)) {
+	acc := mk(raw, "accept", "none", 2)
+	acc.Files = append([]TarFile{}, b.M.DataFiles...)
+	if !yield(acc) {
 		return false
 	}
 	// signer among others
